@@ -16,6 +16,56 @@ def harness(c):
     return c.go_harness("linewriter", OVERLAY, "./cmd/verif_linewriter", tags="")
 
 
+CMD_OVERLAY = {"cmd/dawn/zz_verif_lw_test.go": "cmd_test.go"}
+
+
+def cmd_harness(c):
+    """the command-line consumers (cmd/dawn is package main): a test binary with harness/linewriter/cmd_test.go overlaid"""
+    import hashlib
+    exe = os.path.join(vcheck.BUILD, "harness-linewritercmd-%s" % hashlib.sha1(vcheck.REPO.encode()).hexdigest()[:8])
+    ov = {"Replace": {os.path.join(vcheck.REPO, k): os.path.join(vcheck.VERIF, "harness", "linewriter", v) for k, v in CMD_OVERLAY.items()}}
+    ovp = exe + ".overlay.json"
+    with vcheck.Lock("go-linewritercmd"):
+        with open(ovp, "w") as f:
+            json.dump(ov, f)
+        rc, o = vcheck.sh(["go", "test", "-c", "-vet=off", "-overlay", ovp, "-o", exe, "./cmd/dawn"], cwd=vcheck.REPO, env=vcheck.GOENV, timeout=900)
+    if rc != 0:
+        c.log("command-line harness build failed:\n" + o[-3000:])
+        c.broken.append("harness build linewriter cmd")
+        return None
+    return exe
+
+
+def cli_run(c, exe, viols, replay_input=None):
+    """`dawn build --json <file>` through the real cmd/dawn on generated fresh trees; the events FILE is judged"""
+    import shutil
+    cexe = cmd_harness(c)
+    if not cexe:
+        return {}
+    trees = vcheck.scratch("c18-trees")
+    outp = os.path.join(vcheck.BUILD, "linewritercmd-%d.out" % os.getpid())
+    try:
+        gen = [exe, "-gentrees", trees, "-seed", str(c.seed), "-tier", c.tier]
+        if replay_input is not None:
+            gen += ["-replay", json.dumps(replay_input)]
+        subprocess.run(gen, check=True, timeout=600)
+        env = dict(os.environ)
+        env.update({"VERIF_JSON_TREES": trees, "VERIF_CMD_OUT": outp})
+        p = subprocess.run([cexe, "-test.run", "^TestVerifJSON$", "-test.timeout", "20m"], stdout=subprocess.PIPE,
+                           stderr=subprocess.STDOUT, env=env, timeout=1500, cwd=vcheck.BUILD)
+        text = open(outp, encoding="utf-8", errors="replace").read() if os.path.exists(outp) else ""
+        _, vs, stats = parse(text)
+        viols += vs
+        if (p.returncode != 0 and not vs) or not stats:
+            c.broken.append("command-line harness exited %d" % p.returncode)
+            c.coverage["cmd_harness_output_tail"] = p.stdout.decode("utf-8", "replace")[-2000:]
+        return stats
+    finally:
+        shutil.rmtree(trees, ignore_errors=True)
+        if os.path.exists(outp):
+            os.remove(outp)
+
+
 def race_harness(c):
     """the harness built with the race detector (needs cgo); None when that is not possible here"""
     import hashlib
@@ -112,6 +162,10 @@ def run(c):
         "option sequences on one loaded project: every sequence of length 2 and 3 over {Run(l, nil), {}, {DryRun}, {Always}, {Always, DryRun}} "
         "(library API, and the run(callback=…) builtin with and without its keywords mixed in); each run is judged for the options of THAT run "
         "(evaluating <=> the spy saw the body run; no body in a dry run)",
+        "the consumers of cmd/dawn named in the property's anchors are driven for real: `dawn build --json <file> <root>` (never `--json -`) "
+        "through rootCmd.Execute() in a test binary built from cmd/dawn with one overlaid _test file; the events file is judged against the "
+        "statically known outcome of a build of the fresh tree (bodies print lines and run processes through os.exec / sh.exec, some fail, "
+        "some dependencies are missing)",
         "which member of a dependency cycle detects it depends on the schedule: that one fact is taken from the observed error type",
         "a failure to record the result after a successful body is injected (a target body replaces its own record, already "
         "holding the in-progress marker, by a directory): evaluating then failed is the only legal sequence (Facts.saveOk); a "
@@ -157,6 +211,13 @@ def run(c):
                              "event; one run-done, last, with Run's error; evaluating <=> body ran; dry-run evaluating set == bodies of the next real build",
                     "runs": stats.get("ev.runs", 0)},
             hist={k: v for k, v in stats.items() if k.startswith("ev.")})
+    cstats = cli_run(c, exe, viols)
+    c.coverage["cmd_harness_stats"] = cstats
+    c.count("cli.json.judge", cstats.get("cli.builds", 0),
+            sample={"judge": "`dawn build --json <file> <root>` through cmd/dawn's own renderers on a fresh generated tree; the FILE is a complete "
+                             "sequence of JSON records, per label exactly the expected target events, every output line once and in order, "
+                             "one RunDone as the last record with an error iff the build fails",
+                    "builds": cstats.get("cli.builds", 0)}, hist=cstats)
     if c.tier == "thorough":
         race_run(c, viols)
     report(c, viols)
@@ -174,6 +235,15 @@ def replay(c, case):
             return 1
         return 0
     exe = harness(c)
+    if case.get("input", {}).get("stream") == "cli.json":
+        viols = []
+        cli_run(c, exe, viols, replay_input=case["input"])
+        for v in viols:
+            print(v["detail"][:2000])
+        if viols:
+            print("VIOLATION property=C18 replay=(given)")
+            return 1
+        return 0
     rc, out = run_replay(exe, case["input"])
     print(out)
     _, viols, _ = parse(out)
